@@ -10,7 +10,7 @@ TRUSTED_BASE = [
     "modelled, not verified: std::string/std::vector operations, std::istream::read/gcount/eof on an istringstream, implicit noexcept of destructors (a throw from ~CCsvWriteObjectScope is std::terminate)",
 ]
 ASSUMPTIONS = [
-    "fields are byte strings; the CSV text is UTF-8 in memory or a UTF-8 stream (with or without BOM) that DetectEncoding classifies as UTF-8 (no zero byte and no UTF-16/32 BOM in the first chunk) — other stream encodings are the composition with C13 and are not exercised here",
+    "fields are byte strings; the CSV text is UTF-8 in memory or a stream. UTF-8 streams (with or without BOM) that DetectEncoding classifies as UTF-8 go through csv_load_stream K (the reader's own UTF-8 chunk model); UTF-16/32 streams go through csv_load_encoded = the same generic CSV loader fed the chunks of the C13 model of CEncodedStreamReader<char, K> (T_C09_any_encoding: well-formed text, BOM or ASCII first character, outside the C13 detection defect classes) and are exercised against the code with K = 256",
     "the reading side is a std::vector of a class whose Serialize asks for string members by name; T_C09_reader_rfc* presuppose distinct header names (NoDup hdr); T_C09_reader_any_header says what is returned otherwise",
     "the stream reader theorems are for every chunk size K >= 1; the library instantiates K = 256 and only that value is exercised against the code",
     "the row-width check of the writers compares with the first row (mPrevValuesCount), as the code does",
@@ -18,7 +18,7 @@ ASSUMPTIONS = [
 ]
 
 RULE = ("tables 1..6 columns x 0..5 rows over an alphabet weighted to DQUOTE , ; TAB | SPACE CR LF CRLF and multi-byte UTF-8, field lengths 0..700 "
-        "clustered around the 256-byte chunk size, x 5 separators (+ invalid ones) x {mem, stream, stream+BOM}: "
+        "clustered around the 256-byte chunk size, x 5 separators (+ invalid ones) x {mem, stream, stream+BOM} and the renderings stored as UTF-16LE/BE, UTF-32LE/BE with and without BOM read from a stream (e): "
         "(w) written through SaveObject<CsvArchive> and through the writer classes (with/without header, non-uniform rows); "
         "(r) every table re-rendered by an independent RFC 4180 writer with random quoting / LF|CRLF / final-break choices (plus all-quoted, minimal and "
         "library style), padded so that a token of the rendering straddles a chunk boundary, loaded through LoadObject<CsvArchive> with the columns "
@@ -106,8 +106,11 @@ def judge(line, ans):
         mode = c["mode"]
         if mode == "stream":
             if not C.utf8_detected(text):
-                return "UNKNOWN", "stream not classified as UTF-8 by DetectEncoding (outside the model; C13)", None
-            if text[:3] == C.BOM8:
+                # a UTF-16/32 stream (T_C09_any_encoding): the property speaks about the UTF-8 form of the text it carries
+                text = decode_stream(text)
+                if text is None:
+                    return "UNKNOWN", "stream is neither UTF-8 nor a well-formed UTF-16/32 text with BOM / ASCII first character (C13)", None
+            elif text[:3] == C.BOM8:
                 text = text[3:]
         pq = C.rfc_parse_q(sep, text)
         if pq is None:
@@ -128,6 +131,40 @@ def judge(line, ans):
             return "HOLD", "rows loaded exactly", None
         return "FAIL", "RFC 4180 rendering of a table not loaded to its rows: expected %s" % want[:80], None
     return "UNKNOWN", "unknown op", None
+
+
+ENCODINGS = {"utf16le": ("utf-16-le", b"\xff\xfe"), "utf16be": ("utf-16-be", b"\xfe\xff"),
+             "utf32le": ("utf-32-le", b"\xff\xfe\x00\x00"), "utf32be": ("utf-32-be", b"\x00\x00\xfe\xff")}
+
+
+def decode_stream(data):
+    """the UTF-8 form of a UTF-16/32 byte stream as C13 reads it: BOM first (UTF-32LE before UTF-16LE), else the place of
+    the zero bytes around an ASCII first character; None when it is not a well-formed text in that scheme"""
+    data = bytes(data)
+    scheme = None
+    for e in ("utf32le", "utf32be", "utf16le", "utf16be"):
+        codec, bom = ENCODINGS[e]
+        if data[:len(bom)] == bom:
+            scheme, payload = codec, data[len(bom):]
+            break
+    if scheme is None:
+        if len(data) >= 4 and data[1:4] == b"\x00\x00\x00" and 0 < data[0] < 128:
+            scheme, payload = "utf-32-le", data
+        elif len(data) >= 4 and data[0:3] == b"\x00\x00\x00" and 0 < data[3] < 128:
+            scheme, payload = "utf-32-be", data
+        elif len(data) >= 2 and data[1] == 0 and 0 < data[0] < 128:
+            scheme, payload = "utf-16-le", data
+        elif len(data) >= 2 and data[0] == 0 and 0 < data[1] < 128:
+            scheme, payload = "utf-16-be", data
+        else:
+            return None
+    try:
+        text = payload.decode(scheme)
+    except UnicodeDecodeError:
+        return None
+    if "\x00" in text:
+        return None                     # NUL: inside the detection defect classes of C13
+    return text.encode("utf-8")
 
 
 # ---------------------------------------------------------------- generators
@@ -217,6 +254,41 @@ def gen_reader_cases(rng, n):
     return out
 
 
+def gen_encoded_cases(rng, n):
+    """RFC 4180 renderings of tables with non-ASCII cells stored as UTF-16/32 LE/BE, with BOM or BOM-less (first character
+    ASCII), long enough to span several windows of the encoded reader, read from a stream (T_C09_any_encoding)"""
+    out = []
+    tries = 0
+    while len(out) < n and tries < 20 * n:
+        tries += 1
+        sep = gen_sep(rng)
+        hdr, rows = C.gen_table(rng, sep)
+        table = [hdr] + rows
+        quotes, eols, final, style = C.gen_choices(rng, sep, table)
+        if rng.random() < 0.5:
+            table = C.pad_to_boundary(rng, sep, table, quotes, eols, final)
+            hdr = table[0]
+        text8 = C.rfc_render(sep, table, quotes, eols, final)
+        try:
+            u = bytes(text8).decode("utf-8")
+        except UnicodeDecodeError:
+            continue
+        if not u or "\x00" in u:
+            continue
+        e = rng.choice(list(ENCODINGS))
+        codec, bom = ENCODINGS[e]
+        with_bom = rng.random() < 0.5 or not (0 < ord(u[0]) < 128)
+        data = (bom if with_bom else b"") + u.encode(codec)
+        if C.utf8_detected(data):
+            continue
+        keys, kl = C.gen_keys(rng, hdr, sep)
+        label = "e:%s:%s:%s" % (e, "bom" if with_bom else "nobom", kl)
+        if len(data) > C.K:
+            label += ":multichunk"
+        out.append((C.case_csvr("stream", sep, keys, data), label))
+    return out
+
+
 def gen_malformed_cases(rng, n):
     out = []
     for _ in range(n):
@@ -291,6 +363,7 @@ def gen_cases(rng, scale):
     cases = gen_writer_cases(rng, 5000 * scale)
     cases += gen_reader_cases(rng, 12000 * scale)
     cases += gen_malformed_cases(rng, 4000 * scale)
+    cases += gen_encoded_cases(rng, 1500 * scale)
     return cases
 
 
